@@ -166,8 +166,13 @@ def run(ch, config, res):
                 # extension was noted): as a step of the history it must not disturb what is generated afterwards
                 bconds_, bacts_, bmt_ = E.bad_definition(wl, "baddef")
                 bn = NAMES[wl.int("badname", len(NAMES))]
-                rr = E.classify(lambda: (fs.addfilter(bn, bconds_, bacts_, bmt_), True)[1])
-                E.classify(lambda: (fsb.addfilter(bn, bconds_, bacts_, bmt_), True)[1])
+                if find(bn) != -1 and wl.flag("refused_update", 1, 2):
+                    # ... or an update of an existing filter (same name) that is refused: the filter keeps its content
+                    rr = E.classify(lambda: fs.updatefilter(bn, bn, bconds_, bacts_, bmt_))
+                    E.classify(lambda: fsb.updatefilter(bn, bn, bconds_, bacts_, bmt_))
+                else:
+                    rr = E.classify(lambda: (fs.addfilter(bn, bconds_, bacts_, bmt_), True)[1])
+                    E.classify(lambda: (fsb.addfilter(bn, bconds_, bacts_, bmt_), True)[1])
                 res.count("refused_builds")
                 if rr[0] == "ok":
                     res.count("ended:unsupported-description-accepted")
